@@ -16,6 +16,8 @@ class ExportConfigBash(ExportConfig):
         if value is None:
             value = ''
         elif isinstance(value, str):
+            for char in "\\\"$`":   # characters that keep a special meaning between double quotes
+                value = value.replace(char, "\\"+char)
             value = f"\"{value}\""
         elif isinstance(value, bool):
             value = "0" if value else "-1"   # in bash 0 is true and usually 1, -1 for error
